@@ -531,3 +531,58 @@ def r5h(ctx: Ctx, modules: tuple[str, ...] = ("cirkit.backend.torch",)) -> list[
             else:
                 out.append(viol("R5h", f.qualname, inst, f"`{unparse(n)[:70]}` adds the rank to axis 0: a valid axis becomes out of range", loc))
     return out
+
+
+# ------------------------------------------------------------------------------------------ R5i
+def r5i(ctx: Ctx, modules: tuple[str, ...] = ("cirkit.symbolic", "cirkit.backend.torch")) -> list[Ob]:
+    """R5i -- a normalised axis is range-checked at both ends.
+
+    After ``a = a + len(shape) if a < 0 else a`` (either spelling of the idiom) the value can still be
+    negative (``a = -3`` on a rank-2 shape gives ``-1``), and a negative index into ``shape`` silently
+    selects from the end.  A refusing / returning guard that compares the normalised axis with
+    ``len(..)`` at the upper end only (``if a >= len(shape): ..``) admits those values: the operation is
+    then applied along another axis than the declared one (a Dirichlet initialiser along the fold
+    axis).  The check has to bound both ends (``0 <= a < len(..)``), as the torch-side constructors do."""
+    out: list[Ob] = []
+    for f in ctx.repo.iter_functions():
+        if not f.module.name.startswith(modules):
+            continue
+        normalised: dict[str, int] = {}
+        for n in walk_no_nested(f.node):
+            if isinstance(n, ast.Assign) and len(n.targets) == 1 and isinstance(n.targets[0], ast.Name) and isinstance(n.value, ast.IfExp):
+                v = n.value
+                t = n.targets[0].id
+                txt = unparse(v)
+                if "len(" in txt and isinstance(v.test, ast.Compare) and isinstance(v.test.comparators[0], ast.Constant) and v.test.comparators[0].value == 0:
+                    normalised[t] = n.lineno
+        if not normalised:
+            continue
+        for n in walk_no_nested(f.node):
+            tests: list[ast.AST] = []
+            if isinstance(n, ast.If):
+                tests.append(n.test)
+            elif isinstance(n, ast.Assert):
+                tests.append(n.test)
+            for t in tests:
+                for c in ast.walk(t):
+                    if not isinstance(c, ast.Compare):
+                        continue
+                    items = [c.left, *c.comparators]
+                    # the axis itself is compared (a bare name), not something indexed by it (`shape[a] != len(..)`)
+                    names = {it.id for it in items if isinstance(it, ast.Name)} & set(normalised)
+                    if not names or not any(isinstance(x, ast.Call) and isinstance(x.func, ast.Name) and x.func.id == "len" for it in items for x in ast.walk(it)):
+                        continue
+                    a = sorted(names)[0]
+                    loc = f"{f.module.relpath}:{c.lineno}"
+                    lower = any(
+                        isinstance(k, ast.Compare) and any(isinstance(x, ast.Constant) and x.value == 0 for x in [k.left, *k.comparators]) and any(isinstance(x, ast.Name) and x.id == a for it in [k.left, *k.comparators] for x in ast.walk(it))
+                        for k in ast.walk(t)
+                    )
+                    inst = f"both-ends:{a}"
+                    if lower:
+                        out.append(ok("R5i", f.qualname, inst, f"`{unparse(t)[:50]}` bounds the normalised axis at both ends", loc))
+                    else:
+                        out.append(viol("R5i", f.qualname, inst, f"`{unparse(t)[:50]}` bounds the normalised axis `{a}` only from above: an axis below -rank stays negative after `{a} + len(..)` and passes, and indexing with it selects from the end -- the operation then runs along another axis than the declared one", loc))
+    if not out:
+        out.append(unres("R5i", modules[0], "both-ends", "no range check of a normalised axis against len(..) (another formulation): no verdict", ""))
+    return out
